@@ -439,6 +439,9 @@ pub fn install_quiet_panic_hook() {
             .location()
             .map(|l| format!("{}:{}", l.file(), l.line()))
             .unwrap_or_default();
+        if std::env::var_os("VERIF_LOUD_PANICS").is_some() {
+            eprintln!("panic: {} @ {}", msg, loc);
+        }
         LAST_PANIC.with(|slot| *slot.borrow_mut() = Some(format!("{} @ {}", msg, loc)));
     }));
 }
@@ -450,6 +453,66 @@ pub fn catch<T>(f: impl FnOnce() -> T) -> Result<T, String> {
         Err(_) => Err(LAST_PANIC
             .with(|slot| slot.borrow_mut().take())
             .unwrap_or_else(|| "<panic>".to_string())),
+    }
+}
+
+// ---------------------------------------------------------------------------
+// breadcrumbs: turning a process abort inside the code under test into a verdict
+//
+// std's debug assertions include non-unwinding "unsafe precondition violated"
+// checks, and a panic while panicking aborts too.  A worker that dies this way
+// while executing the code under test has found something; the engine leaves a
+// breadcrumb (the replay text of the execution in progress) that a SIGABRT
+// handler writes out before exiting with status 70.
+
+pub const ABORT_EXIT_CODE: i32 = 70;
+const CRUMB_CAP: usize = 1 << 16;
+static mut CRUMB: [u8; CRUMB_CAP] = [0; CRUMB_CAP];
+static CRUMB_LEN: std::sync::atomic::AtomicUsize = std::sync::atomic::AtomicUsize::new(0);
+static mut ABORT_PATH: [u8; 512] = [0; 512];
+
+/// Records the replay text of the execution about to run (cheap: one memcpy).
+#[inline]
+pub fn set_breadcrumb(bytes: &[u8]) {
+    let n = bytes.len().min(CRUMB_CAP);
+    unsafe {
+        let dst = std::ptr::addr_of_mut!(CRUMB) as *mut u8;
+        std::ptr::copy_nonoverlapping(bytes.as_ptr(), dst, n);
+    }
+    CRUMB_LEN.store(n, std::sync::atomic::Ordering::Release);
+}
+
+pub fn clear_breadcrumb() {
+    CRUMB_LEN.store(0, std::sync::atomic::Ordering::Release);
+}
+
+extern "C" fn on_abort(_sig: libc::c_int) {
+    unsafe {
+        let n = CRUMB_LEN.load(std::sync::atomic::Ordering::Acquire);
+        let path = std::ptr::addr_of!(ABORT_PATH) as *const libc::c_char;
+        if n > 0 && *path != 0 {
+            let fd = libc::open(path, libc::O_WRONLY | libc::O_CREAT | libc::O_TRUNC, 0o644);
+            if fd >= 0 {
+                let src = std::ptr::addr_of!(CRUMB) as *const libc::c_void;
+                let _ = libc::write(fd, src, n);
+                libc::close(fd);
+            }
+            libc::_exit(ABORT_EXIT_CODE);
+        }
+        libc::_exit(134);
+    }
+}
+
+fn install_abort_handler(path: &std::path::Path) {
+    let bytes = path.to_string_lossy().into_owned().into_bytes();
+    if bytes.len() >= 511 {
+        return;
+    }
+    unsafe {
+        let dst = std::ptr::addr_of_mut!(ABORT_PATH) as *mut u8;
+        std::ptr::copy_nonoverlapping(bytes.as_ptr(), dst, bytes.len());
+        *dst.add(bytes.len()) = 0;
+        libc::signal(libc::SIGABRT, on_abort as *const () as usize);
     }
 }
 
@@ -515,6 +578,8 @@ pub struct Engine {
     pub replay: fn(&Ctx, &str) -> Result<String, String>,
     /// assumptions / trusted base
     pub assumptions: fn(&Ctx) -> Vec<String>,
+    /// turns a breadcrumb left by an aborted worker into (key, replay text); None = engine leaves no breadcrumbs
+    pub decode_breadcrumb: Option<fn(&Ctx, &[u8]) -> Option<(String, String)>>,
 }
 
 fn work_dir(ctx: &Ctx) -> PathBuf {
@@ -534,6 +599,13 @@ pub fn main_entry(engine: Engine) -> ! {
     if let Some(path) = ctx.replay.clone() {
         let text = std::fs::read_to_string(&path)
             .unwrap_or_else(|e| machinery_failure(&format!("cannot read replay {:?}: {}", path, e)));
+        if engine.decode_breadcrumb.is_some() {
+            // an abort while replaying is the violation reproducing itself
+            let marker = PathBuf::from(format!("{}.abort-marker", path.display()));
+            let _ = std::fs::remove_file(&marker);
+            install_abort_handler(&marker);
+            set_breadcrumb(b"aborted while replaying");
+        }
         match (engine.replay)(&ctx, &text) {
             Ok(desc) => {
                 println!("REPLAY reproduces the violation: {}", desc);
@@ -548,8 +620,11 @@ pub fn main_entry(engine: Engine) -> ! {
     }
 
     if ctx.worker.is_some() {
-        let rep = (engine.run)(&ctx);
         let dir = work_dir(&ctx);
+        if engine.decode_breadcrumb.is_some() {
+            install_abort_handler(&dir.join(format!("{}.abort", ctx.worker.unwrap().0)));
+        }
+        let rep = (engine.run)(&ctx);
         if let Err(e) = rep.serialize(&dir, ctx.worker.unwrap().0) {
             machinery_failure(&format!("worker cannot write its report: {}", e));
         }
@@ -576,9 +651,11 @@ pub fn main_entry(engine: Engine) -> ! {
         }
     }
     let mut failed = Vec::new();
+    let mut aborted: Vec<usize> = Vec::new();
     for (i, mut child) in children.into_iter().enumerate() {
         match child.wait() {
             Ok(status) if status.success() => {}
+            Ok(status) if status.code() == Some(ABORT_EXIT_CODE) && engine.decode_breadcrumb.is_some() => aborted.push(i),
             Ok(status) => failed.push(format!("worker {} exited with {:?}", i, status)),
             Err(e) => failed.push(format!("worker {}: {}", i, e)),
         }
@@ -588,10 +665,39 @@ pub fn main_entry(engine: Engine) -> ! {
     }
     let mut total = Report::new();
     for i in 0..n {
+        if aborted.contains(&i) {
+            continue;
+        }
         match Report::deserialize(&dir, i) {
             Ok(rep) => total.merge(rep),
             Err(e) => machinery_failure(&format!("cannot read worker {} report: {}", i, e)),
         }
+    }
+    // A worker that aborted inside the code under test left a breadcrumb: the execution in
+    // progress.  It is replayed in a fresh child; if that child aborts (or reports the violation)
+    // again it is a verdict, otherwise a machinery failure.
+    for i in aborted {
+        let crumb = std::fs::read(dir.join(format!("{}.abort", i))).unwrap_or_default();
+        let Some((key, replay_text)) = (engine.decode_breadcrumb.unwrap())(&ctx, &crumb) else {
+            machinery_failure(&format!("worker {} aborted and its breadcrumb cannot be decoded", i));
+        };
+        let probe = dir.join(format!("{}.abort-replay.txt", i));
+        if std::fs::write(&probe, format!("---\n{}\n", replay_text)).is_err() {
+            machinery_failure("cannot write the abort replay probe");
+        }
+        let status = std::process::Command::new(&exe).arg("--prop").arg(&ctx.prop).arg("--replay").arg(&probe).stdout(std::process::Stdio::null()).stderr(std::process::Stdio::null()).status();
+        let reproduced = matches!(status.as_ref().map(|s| s.code()), Ok(Some(ABORT_EXIT_CODE)) | Ok(Some(1)) | Ok(Some(134)) | Ok(None));
+        if !reproduced {
+            machinery_failure(&format!("worker {} aborted but the execution in progress does not abort again: {}", i, replay_text.replace('\n', " / ")));
+        }
+        total.evaluations += 1;
+        total.not_exhaustive = true;
+        total.note(format!("worker {} aborted inside the code under test; the rest of its share was not explored", i));
+        total.violation(Violation {
+            key,
+            summary: format!("the process ABORTS (a non-unwinding panic: std's undefined-behaviour precondition check, or a panic while panicking) during: {}", replay_text.replace('\n', " / ")),
+            replay_text,
+        });
     }
     let _ = std::fs::remove_dir_all(&dir);
     finish(&ctx, &engine, total)
